@@ -5,8 +5,12 @@
      src/core/build_label.go  : Includes, IsAllTargets, IsAllSubpackages, IsPseudoTarget, Less, LooksLikeABuildLabel,
                                 and the `//pkg:name`, `//pkg`, `//pkg/...` forms of ParseBuildLabelParts with
                                 validatePackageName / validateTargetName.
-   Every string literal of those functions comes from Gen/LabelFilter.v (regenerated from the source by gotrans,
-   which also pins the statement shape of each function).  Labels of the host repository only (Subrepo = "").
+                                parseMaybeRelativeBuildLabel (relative `:name` exclude expressions are resolved against
+                                core.InitialPackagePath, here the input `cur`; the filepath.Join fall-back of `@` forms),
+                                parseBuildLabelSubrepo (`@sub//pkg:name`, `///sub//pkg:name`), packageKey.String
+     src/core/graph.go        : PackageByLabel (keyed by package name AND subrepo), PackageMap (keyed by packageKey.String())
+   Every string literal of the filter functions comes from Gen/LabelFilter.v (regenerated from the source by gotrans,
+   which also pins the statement shape of each function).  Labels, targets and packages carry their Subrepo.
    No proofs here. *)
 From Coq Require Import String.
 From PlzV Require Import Base.Harness Gen.LabelFilter.
@@ -50,6 +54,19 @@ Fixpoint last_index_byte (c : N) (x : str) : option nat :=
               end
   end.
 
+(* strings.Index(x, sub) *)
+Fixpoint index_sub (sub x : str) : option nat :=
+  if has_prefix sub x then Some 0
+  else match x with [] => None | _ :: r => option_map S (index_sub sub r) end.
+
+(* strings.Join(comps, "/") *)
+Fixpoint join_slash (comps : list str) : str :=
+  match comps with
+  | [] => []
+  | [c] => c
+  | c :: r => c ++ 47%N :: join_slash r
+  end.
+
 (* strings.TrimRight(x, "/") *)
 Fixpoint trim_right (c : N) (x : str) : str :=
   match x with
@@ -73,6 +90,34 @@ Fixpoint split_on (sep : N) (x : str) : list str :=
 
 Definition is_nil {A} (l : list A) : bool := match l with [] => true | _ => false end.
 
+(* path/filepath.Clean on unix: the loop over the path elements.  `stack` is the output so far, last element first;
+   `..` elements are only ever at its bottom (the `dotdot` mark of the Go code). *)
+Definition dot : str := [46%N].
+Definition dotdot : str := [46%N; 46%N].
+Fixpoint clean_comps (rooted : bool) (comps stack : list str) : list str :=
+  match comps with
+  | [] => rev stack
+  | c :: r =>
+      if is_nil c || str_eqb c dot then clean_comps rooted r stack
+      else if str_eqb c dotdot then
+        match stack with
+        | top :: rest => if str_eqb top dotdot then clean_comps rooted r (c :: stack) else clean_comps rooted r rest
+        | [] => if rooted then clean_comps rooted r [] else clean_comps rooted r [c]
+        end
+      else clean_comps rooted r (c :: stack)
+  end.
+
+Definition clean (path : str) : str :=
+  let rooted := match path with 47%N :: _ => true | _ => false end in
+  let body := join_slash (clean_comps rooted (split_on 47%N path) []) in
+  let out := if rooted then 47%N :: body else body in
+  if is_nil out then dot else out.
+
+(* filepath.Join(a, b) *)
+Definition path_join (a b : str) : str :=
+  if negb (is_nil a) then clean (a ++ 47%N :: b)
+  else if negb (is_nil b) then clean b else [].
+
 (* ---- build_target.go --------------------------------------------------------------------------------- *)
 
 (* func match(pattern, s string) bool *)
@@ -81,7 +126,8 @@ Definition match_ (pattern x : str) : bool :=
   else if has_suffix pattern [wildcard_byte] && has_prefix (removelast pattern) x then true
   else false.
 
-Record target := { t_pkg : str; t_name : str; t_labels : list str; t_test : bool (* target.Test != nil *) }.
+Record target := { t_sub : str (* target.Label.Subrepo *); t_pkg : str; t_name : str; t_labels : list str;
+                   t_test : bool (* target.Test != nil *) }.
 
 (* the loop of HasLabel *)
 Fixpoint any_match (label : str) (ls : list str) : bool :=
@@ -119,9 +165,10 @@ Definition target_should_include (t : target) (includes excludes : list str) : b
 
 (* ---- build_label.go ---------------------------------------------------------------------------------- *)
 
-Record label := { l_pkg : str; l_name : str }.
+Record label := { l_sub : str (* Subrepo *); l_pkg : str; l_name : str }.
 
-Definition label_eqb (a b : label) : bool := str_eqb (l_pkg a) (l_pkg b) && str_eqb (l_name a) (l_name b).
+Definition label_eqb (a b : label) : bool :=
+  str_eqb (l_sub a) (l_sub b) && str_eqb (l_pkg a) (l_pkg b) && str_eqb (l_name a) (l_name b).
 
 Definition is_all_subpackages (l : label) : bool := str_eqb (l_name l) (lit all_subpackages_name).
 Definition is_all_targets (l : label) : bool := str_eqb (l_name l) (lit all_targets_name).
@@ -139,9 +186,10 @@ Definition includes (e that : label) : bool :=
          else false
   else false.
 
-(* func (label BuildLabel) Less(other BuildLabel) bool, equal (empty) subrepos *)
+(* func (label BuildLabel) Less(other BuildLabel) bool *)
 Definition label_less (a b : label) : bool :=
-  if negb (str_eqb (l_pkg a) (l_pkg b)) then str_ltb (l_pkg a) (l_pkg b)
+  if negb (str_eqb (l_sub a) (l_sub b)) then str_ltb (l_sub a) (l_sub b)
+  else if negb (str_eqb (l_pkg a) (l_pkg b)) then str_ltb (l_pkg a) (l_pkg b)
   else str_ltb (l_name a) (l_name b).
 
 Definition looks_like_label (x : str) : bool :=
@@ -161,44 +209,86 @@ Definition validate_target_name (name : str) : bool :=
   && (negb (N.eqb (hd 0%N name) name_hidden_byte) || str_eqb name (lit name_hidden_exception))
   && forallb (fun suf => negb (has_suffix name (lit suf))) reserved_suffixes.
 
-(* ParseBuildLabelParts(target, "", "") for the host-repository forms.  None = the ("","","") error result, or a
-   form outside this model (':' relative labels need the working directory, '@' and '///' are subrepo labels). *)
-Definition parse_parts (target : str) : option (str * str) :=
-  if Nat.ltb (length target) 2 then None
-  else match target with
-  | 58%N :: _ => None
-  | 64%N :: _ => None
-  | 47%N :: 47%N :: 47%N :: _ => None
-  | 47%N :: 47%N :: rest =>
-      match index_byte 58%N target with
-      | Some idx =>
-          let pkg := firstn (idx - 2) rest in
-          let name := skipn (idx + 1) target in
-          if negb (validate_package_name pkg) || negb (validate_target_name name) || str_eqb name (lit "...")
-          then None else Some (pkg, name)
-      | None =>
-          if negb (validate_package_name rest) then None
-          else if has_suffix target (lit "/...")
-               then Some (trim_right 47%N (firstn (length target - 3 - 2) rest), lit "...")
-               else match last_index_byte 47%N target with
-                    | Some idx => Some (rest, skipn (idx + 1) target)
-                    | None => Some (rest, rest)
+(* ParseBuildLabelParts(target, currentPath, "").  POk pkg name subrepo is the Go result triple (name may be empty:
+   TryParseBuildLabel turns that into the error), PErr the ("","","") result.  parseBuildLabelSubrepo calls back into
+   ParseBuildLabelParts on a strictly shorter string: recursion on fuel, PFuel = out of fuel (proved unreachable with
+   fuel > length target in Proof/C36_parse.v). *)
+Inductive pres := POk (pkg name sub : str) | PErr | PFuel.
+
+(* func parseBuildLabelSubrepo(target, currentPath string), `rec` = ParseBuildLabelParts(_, currentPath, "") *)
+Definition parse_subrepo (rec : str -> pres) (target : str) : pres :=
+  let found := match index_sub (lit "//") target with
+               | Some i => Some i
+               | None => index_byte 58%N target
+               end in
+  match found with
+  | None => match last_index_byte 47%N target with
+            | Some i => POk [] (skipn (S i) target) target
+            | None => POk [] target target
+            end
+  | Some idx => if existsb (N.eqb 58%N) (firstn idx target) then PErr
+                else match rec (skipn idx target) with
+                     | POk p n _ => POk p n (firstn idx target)
+                     | r => r
+                     end
+  end.
+
+(* the `//pkg:name`, `//pkg/...`, `//pkg` forms; rest = target[2:] *)
+Definition host_parts (target rest : str) : pres :=
+  match index_byte 58%N target with
+  | Some idx =>
+      let pkg := firstn (idx - 2) rest in
+      let name := skipn (idx + 1) target in
+      if negb (validate_package_name pkg) || negb (validate_target_name name) || str_eqb name (lit "...")
+      then PErr else POk pkg name []
+  | None =>
+      if negb (validate_package_name rest) then PErr
+      else if has_suffix target (lit "/...")
+           then POk (trim_right 47%N (firstn (length target - 3 - 2) rest)) (lit "...") []
+           else match last_index_byte 47%N target with
+                | Some idx => POk rest (skipn (idx + 1) target) []
+                | None => POk rest rest []
+                end
+  end.
+
+Fixpoint parse_parts (fuel : nat) (target cur : str) : pres :=
+  match fuel with
+  | O => PFuel
+  | S fuel' =>
+      match target with
+      | c0 :: c1 :: rest =>
+          if N.eqb c0 58%N then (if validate_target_name (c1 :: rest) then POk cur (c1 :: rest) [] else PErr)
+          else if N.eqb c0 64%N then parse_subrepo (fun t => parse_parts fuel' t cur) (c1 :: rest)
+          else if N.eqb c0 47%N && N.eqb c1 47%N
+               then match rest with
+                    | c2 :: rest3 => if N.eqb c2 47%N then parse_subrepo (fun t => parse_parts fuel' t cur) rest3
+                                     else host_parts target rest
+                    | [] => host_parts target rest
                     end
+               else PErr
+      | _ => PErr       (* len(target) < 2 *)
       end
+  end.
+
+(* TryParseBuildLabel(target, currentPath, "") *)
+Definition try_parse (cur target : str) : option label :=
+  match parse_parts (S (length target)) target cur with
+  | POk pkg name sub => if is_nil name then None else Some {| l_sub := sub; l_pkg := pkg; l_name := name |}
   | _ => None
   end.
 
-(* TryParseBuildLabel(target, "", "") *)
-Definition try_parse (target : str) : option label :=
-  match parse_parts target with
-  | Some (pkg, name) => if is_nil name then None else Some {| l_pkg := pkg; l_name := name |}
-  | None => None
-  end.
-
-(* parseMaybeRelativeBuildLabel(e, "") for an e that LooksLikeABuildLabel: `//` forms return straight from
-   TryParseBuildLabel; the others are outside the model *)
-Definition parse_exclude (e : str) : option label :=
-  if has_prefix (lit "//") e then try_parse e else None.
+(* parseMaybeRelativeBuildLabel(e, "") with core.InitialPackagePath = cur (the package plz was started in).
+   `:name` is resolved against cur; anything that parses as it stands, and every `//` form, is absolute; what
+   remains (an `@` form that does not parse) is looked for underneath cur. *)
+Definition parse_exclude (cur e : str) : option label :=
+  if has_prefix (lit ":") e then try_parse cur e
+  else
+    let e' := if negb (has_prefix (lit "//") e) && has_prefix (lit "/") e then 47%N :: e else e in
+    match try_parse [] e' with
+    | Some l => Some l
+    | None => if has_prefix (lit "//") e' then None
+              else try_parse [] (lit "//" ++ path_join cur e')
+    end.
 
 (* ---- state.go ---------------------------------------------------------------------------------------- *)
 
@@ -206,26 +296,27 @@ Record state := { st_include : list str; st_exclude : list str; st_exclude_targe
 
 Definition empty_state : state := {| st_include := []; st_exclude := []; st_exclude_targets := [] |}.
 
-(* the loop of SetIncludeAndExclude; None = log.Fatalf (or a label form outside the model) *)
-Fixpoint set_exclude_loop (exclude : list str) (exc : list str) (ets : list label) : option (list str * list label) :=
+(* the loop of SetIncludeAndExclude, run in a process started in package `cur`; None = log.Fatalf *)
+Fixpoint set_exclude_loop (cur : str) (exclude : list str) (exc : list str) (ets : list label)
+  : option (list str * list label) :=
   match exclude with
   | [] => Some (exc, ets)
   | e :: r => if looks_like_label e
-              then match parse_exclude e with
+              then match parse_exclude cur e with
                    | None => None
-                   | Some l => set_exclude_loop r exc (ets ++ [l])
+                   | Some l => set_exclude_loop cur r exc (ets ++ [l])
                    end
-              else set_exclude_loop r (exc ++ [e]) ets
+              else set_exclude_loop cur r (exc ++ [e]) ets
   end.
 
 (* func (state *BuildState) SetIncludeAndExclude(include, exclude []string): Exclude is reset, ExcludeTargets is not *)
-Definition set_include_and_exclude (st : state) (include exclude : list str) : option state :=
-  match set_exclude_loop exclude [] (st_exclude_targets st) with
+Definition set_include_and_exclude (cur : str) (st : state) (include exclude : list str) : option state :=
+  match set_exclude_loop cur exclude [] (st_exclude_targets st) with
   | None => None
   | Some (exc, ets) => Some {| st_include := include; st_exclude := exc; st_exclude_targets := ets |}
   end.
 
-Definition t_label (t : target) : label := {| l_pkg := t_pkg t; l_name := t_name t |}.
+Definition t_label (t : target) : label := {| l_sub := t_sub t; l_pkg := t_pkg t; l_name := t_name t |}.
 
 Fixpoint any_includes (ets : list label) (l : label) : bool :=
   match ets with
@@ -238,12 +329,18 @@ Definition state_should_include (st : state) (t : target) : bool :=
   if any_includes (st_exclude_targets st) (t_label t) then false
   else target_should_include t (st_include st) (st_exclude st).
 
-(* the graph: packages by name, each with its targets (pkg.AllTargets() enumerates a Go map: any order) *)
-Record package := { p_name : str; p_targets : list target }.
+(* the graph: packages by (name, subrepo), each with its targets (pkg.AllTargets() enumerates a Go map: any order) *)
+Record package := { p_sub : str (* pkg.SubrepoName *); p_name : str; p_targets : list target }.
 Definition graph := list package.
 
+(* graph.PackageByLabel(label) = graph.packages.Get(packageKey{Name: label.PackageName, Subrepo: label.Subrepo}) *)
 Definition package_by_label (g : graph) (l : label) : option package :=
-  find (fun p => str_eqb (p_name p) (l_pkg l)) g.
+  find (fun p => str_eqb (p_name p) (l_pkg l) && str_eqb (p_sub p) (l_sub l)) g.
+
+(* func (key packageKey) String() string : the key of graph.PackageMap() *)
+Definition pkg_key (p : package) : str :=
+  if negb (is_nil (p_sub p)) then lit package_key_prefix ++ p_sub p ++ lit package_key_infix ++ p_name p
+  else p_name p.
 
 (* addPackage inside expandOriginalPseudoTarget *)
 Definition add_package (st : state) (just_tests : bool) (p : package) : list label :=
@@ -261,7 +358,7 @@ Definition expand_pseudo (st : state) (g : graph) (l : label) (just_tests : bool
   sort_labels
     (if is_all_targets l
      then match package_by_label g l with Some p => add_package st just_tests p | None => [] end
-     else flat_map (fun p => if includes l {| l_pkg := p_name p; l_name := [] |}
+     else flat_map (fun p => if includes l {| l_sub := []; l_pkg := pkg_key p; l_name := [] |}
                              then add_package st just_tests p else []) g).
 
 (* func (state *BuildState) expandLabels(labels []BuildLabel, justTests bool) BuildLabels *)
@@ -279,61 +376,70 @@ Definition expand_originals (st : state) (g : graph) (requested : list label) (n
 (* ---- correspondence cases ------------------------------------------------------------------------------ *)
 
 Definition tgt := (str * list str * bool)%type.            (* name, labels, is a test *)
-Definition pkg := (str * list tgt)%type.
+Definition pkg := (str * str * list tgt)%type.             (* subrepo, package name, targets *)
+Definition lab := (str * str * str)%type.                  (* subrepo, package name, name *)
 
-Definition mk_target (p : str) (x : tgt) : target :=
-  let '(n, ls, tst) := x in {| t_pkg := p; t_name := n; t_labels := ls; t_test := tst |}.
+Definition mk_target (sub p : str) (x : tgt) : target :=
+  let '(n, ls, tst) := x in {| t_sub := sub; t_pkg := p; t_name := n; t_labels := ls; t_test := tst |}.
 Definition mk_graph (g : list pkg) : graph :=
-  map (fun p => {| p_name := fst p; p_targets := map (mk_target (fst p)) (snd p) |}) g.
-Definition mk_label (x : str * str) : label := {| l_pkg := fst x; l_name := snd x |}.
-Definition un_label (l : label) : str * str := (l_pkg l, l_name l).
+  map (fun x => let '(sub, p, ts) := x in {| p_sub := sub; p_name := p; p_targets := map (mk_target sub p) ts |}) g.
+Definition mk_label (x : lab) : label := let '(sub, p, n) := x in {| l_sub := sub; l_pkg := p; l_name := n |}.
+Definition un_label (l : label) : lab := (l_sub l, l_pkg l, l_name l).
+Definition bare (ls : list str) (tst : bool) : target :=
+  {| t_sub := []; t_pkg := []; t_name := []; t_labels := ls; t_test := tst |}.
 
+(* `cur` is core.InitialPackagePath while the implementation ran *)
 Inductive case :=
 | CHas (labels : list str) (is_test : bool) (label : str) (out : bool)
 | CTarget (labels : list str) (is_test : bool) (includes excludes : list str) (out : bool)
-| CIncl (e that : str * str) (out : bool)
+| CIncl (e that : lab) (out : bool)
 | CLooks (x : str) (out : bool)
-| CParse (x : str) (out : option (str * str))
-| CSet (before : list (str * str)) (include exclude : list str)
-       (obs_include obs_exclude : list str) (obs_targets : list (str * str))
-| CState (p : str) (t : tgt) (include exclude : list str) (out : bool)
-| CExpand (g : list pkg) (include exclude : list str) (labels : list (str * str)) (need_tests : bool)
-          (out : list (str * str))
-| COrig (g : list pkg) (include exclude : list str) (requested : list (str * str)) (need_tests : bool)
-        (out : list (str * str)).
+| CParse (cur x : str) (out : option lab)                     (* TryParseBuildLabel(x, cur, "") *)
+| CRel (cur x : str) (out : option lab)                       (* parseMaybeRelativeBuildLabel(x, "") *)
+| CJoin (a b out : str)                                       (* filepath.Join(a, b) *)
+| CKey (sub name out : str)                                   (* the PackageMap key of a package *)
+| CSet (cur : str) (before : list lab) (include exclude : list str)
+       (obs_include obs_exclude : list str) (obs_targets : list lab)
+| CState (cur sub p : str) (t : tgt) (include exclude : list str) (out : bool)
+| CExpand (cur : str) (g : list pkg) (include exclude : list str) (labels : list lab) (need_tests : bool)
+          (out : list lab)
+| COrig (cur : str) (g : list pkg) (include exclude : list str) (requested : list lab) (need_tests : bool)
+        (out : list lab).
 
-Definition pair_eqb (a b : str * str) : bool := str_eqb (fst a) (fst b) && str_eqb (snd a) (snd b).
+Definition lab_eqb (a b : lab) : bool :=
+  str_eqb (fst (fst a)) (fst (fst b)) && str_eqb (snd (fst a)) (snd (fst b)) && str_eqb (snd a) (snd b).
 Definition strs_eqb := list_eqb str_eqb.
-Definition pairs_eqb := list_eqb pair_eqb.
+Definition labs_eqb := list_eqb lab_eqb.
 
 Definition check (c : case) : bool :=
   match c with
-  | CHas ls tst l out =>
-      Bool.eqb (has_label {| t_pkg := []; t_name := []; t_labels := ls; t_test := tst |} l) out
-  | CTarget ls tst incs excs out =>
-      Bool.eqb (target_should_include {| t_pkg := []; t_name := []; t_labels := ls; t_test := tst |} incs excs) out
+  | CHas ls tst l out => Bool.eqb (has_label (bare ls tst) l) out
+  | CTarget ls tst incs excs out => Bool.eqb (target_should_include (bare ls tst) incs excs) out
   | CIncl e that out => Bool.eqb (includes (mk_label e) (mk_label that)) out
   | CLooks x out => Bool.eqb (looks_like_label x) out
-  | CParse x out => option_eqb pair_eqb (option_map un_label (try_parse x)) out
-  | CSet before inc exc oi oe ot =>
-      match set_include_and_exclude {| st_include := []; st_exclude := [s "stale"]; st_exclude_targets := map mk_label before |} inc exc with
+  | CParse cur x out => option_eqb lab_eqb (option_map un_label (try_parse cur x)) out
+  | CRel cur x out => option_eqb lab_eqb (option_map un_label (parse_exclude cur x)) out
+  | CJoin a b out => str_eqb (path_join a b) out
+  | CKey sub name out => str_eqb (pkg_key {| p_sub := sub; p_name := name; p_targets := [] |}) out
+  | CSet cur before inc exc oi oe ot =>
+      match set_include_and_exclude cur {| st_include := []; st_exclude := [s "stale"]; st_exclude_targets := map mk_label before |} inc exc with
       | None => false
       | Some st => strs_eqb (st_include st) oi && strs_eqb (st_exclude st) oe
-                   && pairs_eqb (map un_label (st_exclude_targets st)) ot
+                   && labs_eqb (map un_label (st_exclude_targets st)) ot
       end
-  | CState p t inc exc out =>
-      match set_include_and_exclude empty_state inc exc with
+  | CState cur sub p t inc exc out =>
+      match set_include_and_exclude cur empty_state inc exc with
       | None => false
-      | Some st => Bool.eqb (state_should_include st (mk_target p t)) out
+      | Some st => Bool.eqb (state_should_include st (mk_target sub p t)) out
       end
-  | CExpand g inc exc ls nt out =>
-      match set_include_and_exclude empty_state inc exc with
+  | CExpand cur g inc exc ls nt out =>
+      match set_include_and_exclude cur empty_state inc exc with
       | None => false
-      | Some st => pairs_eqb (map un_label (expand_labels st (mk_graph g) (map mk_label ls) nt)) out
+      | Some st => labs_eqb (map un_label (expand_labels st (mk_graph g) (map mk_label ls) nt)) out
       end
-  | COrig g inc exc req nt out =>
-      match set_include_and_exclude empty_state inc exc with
+  | COrig cur g inc exc req nt out =>
+      match set_include_and_exclude cur empty_state inc exc with
       | None => false
-      | Some st => pairs_eqb (map un_label (expand_originals st (mk_graph g) (map mk_label req) nt)) out
+      | Some st => labs_eqb (map un_label (expand_originals st (mk_graph g) (map mk_label req) nt)) out
       end
   end.
